@@ -97,6 +97,17 @@ fn operands(prop: &str, op: u16, sl: L, dl: L, mode: usize, ia: Ing, ib: Ing, r1
                     let x = if (r2 >> 32) & 1 == 0 { sq.shr_floor(sl.f.min(2 * yb)) } else { sq };
                     sl.wrap(&x.add_i64(small(r1 >> 64).clamp(-1, 1)))
                 }
+                8 | 9 => {
+                    // branch boundaries of the bit-by-bit logarithm: x = 2^(k + j/2^m), where a repeated squaring
+                    // lands exactly on (or within an ulp of) a power of two
+                    let m = 1 + ((r2 >> 8) % 6) as u32;
+                    let j = 1 + 2 * ((r2 >> 16) % (1u128 << (m - 1))) as i64; // odd numerator
+                    let top = if sl.signed { sl.w - 1 } else { sl.w };
+                    let k = ((r2 >> 32) % top as u128) as i64 - sl.f as i64;
+                    let e = mp::ln2().mul(&Big::from_i64(j)).shr_floor(m).add(&mp::ln2().mul(&Big::from_i64(k)));
+                    let v = mp::exp(&e);
+                    wrap_add(mp_to_raw(sl, &v), (r1 % 5) as i64 - 1)
+                }
                 6 => {
                     // smallest invertible values: around 2^(2f)/max_D expressed in S
                     let t = Big::pow2(2 * dl.f).div_trunc(&dl.hi()).shr_floor(dl.f - sl.f);
@@ -275,7 +286,7 @@ impl Engine for Math {
                     _ => ps[pi % ps.len()],
                 };
                 let (sl, dl, _) = pair_info(pair as usize);
-                let m = if op == POW || op == POWI { mode } else { mode % 8 };
+                let m = if op == POW || op == POWI { mode } else if matches!(op, SQRT | LOG2 | LN) { mode % 10 } else { mode % 8 };
                 let (a, b) = operands(&prop, op, sl, dl, m, ia, ib, r1, r2);
                 Case { op, lay: sl.idx() as u16, lay2: pair, a, b, ..Case::default() }
             })
